@@ -218,7 +218,7 @@ void harness_write(void)
 			compare("after write");
 			if (vp_sf_first && (size_t)r < vp_sf_first)
 				VP_ASSERT(B->first->misalign == 4 + r && B->first->off == vp_sf_first - (size_t)r, "C16: sendfile chain does not continue at the first unsent file byte");
-#if SHAPE != 1
+#if SHAPE != 1 && !defined(VP_NO_PROGRESS)      /* (empty buffer / howmuch == 0: nothing can be written) */
 			VP_WITNESS("C16 write removed the accepted prefix");
 #endif
 		} else {
